@@ -14,7 +14,7 @@ TRUSTED_BASE = [
 
 # modules whose theorems are the obligations of the property (audited); `ties` are built too (a failure = tie broken)
 PROPS = {
-    "C01": dict(modules=["Cvss.Props.C01", "Cvss.Props.ParseTieTransfer", "Cvss.Props.ParseTie", "Cvss.Props.C01v2", "Cvss.Props.C01v3", "Cvss.Props.C01v4"], ties=["Cvss.Props.ParseTie"], streams=["parse"]),
+    "C01": dict(modules=["Cvss.Props.C01", "Cvss.Props.C01b", "Cvss.Props.ParseTieTransfer", "Cvss.Props.ParseTie", "Cvss.Props.C01v2", "Cvss.Props.C01v3", "Cvss.Props.C01v4"], ties=["Cvss.Props.ParseTie"], streams=["parse"]),
     "C02": dict(modules=["Cvss.Props.C02", "Cvss.Props.GenParsers", "Cvss.Props.ParseTie", "Cvss.Props.C02v2", "Cvss.Props.C02v3", "Cvss.Props.C02v4"], ties=["Cvss.Props.ParseTie"], streams=["parse", "obj"]),
     "C03": dict(modules=["Cvss.Props.C03", "Cvss.Props.IEEE", "Cvss.Props.F64Facts", "Cvss.Proofs.Score3Base30", "Cvss.Proofs.Score3Base31", "Cvss.Proofs.Score3Close30", "Cvss.Proofs.Score3Close31", "Cvss.Proofs.Score3CloseDef", "Cvss.Proofs.Score3Codes30", "Cvss.Proofs.Score3Codes31", "Cvss.Proofs.Score3Env30_0", "Cvss.Proofs.Score3Env30_1", "Cvss.Proofs.Score3Env30_2", "Cvss.Proofs.Score3Env30_3", "Cvss.Proofs.Score3Env31_0", "Cvss.Proofs.Score3Env31_1", "Cvss.Proofs.Score3Env31_2", "Cvss.Proofs.Score3Env31_3", "Cvss.Proofs.Score3M30", "Cvss.Proofs.Score3M31", "Cvss.Proofs.Score3Main30", "Cvss.Proofs.Score3Main31", "Cvss.Proofs.Score3Roundup", "Cvss.Proofs.Score3Spec", "Cvss.Proofs.Score3T30", "Cvss.Proofs.Score3T31", "Cvss.Proofs.Score3Util"], ties=[], streams=["score:F:30,31"]),
     "C04": dict(modules=["Cvss.Props.C04", "Cvss.Props.IEEE", "Cvss.Props.F64Facts", "Cvss.Proofs.Score4Main", "Cvss.Proofs.Score4TailAll", "Cvss.Proofs.Score4Groups", "Cvss.Proofs.Score4Loops", "Cvss.Proofs.Score4MV", "Cvss.Proofs.Score4Shape", "Cvss.Spec.V4Lemmas", "Cvss.Proofs.Score4Tail00", "Cvss.Proofs.Score4Tail01", "Cvss.Proofs.Score4Tail02", "Cvss.Proofs.Score4Tail03", "Cvss.Proofs.Score4Tail04", "Cvss.Proofs.Score4Tail05", "Cvss.Proofs.Score4Tail06", "Cvss.Proofs.Score4Tail07", "Cvss.Proofs.Score4Tail08", "Cvss.Proofs.Score4Tail09", "Cvss.Proofs.Score4Tail10", "Cvss.Proofs.Score4Tail11", "Cvss.Proofs.Score4Tail12", "Cvss.Proofs.Score4Tail13", "Cvss.Proofs.Score4Tail14", "Cvss.Proofs.Score4Tail15", "Cvss.Proofs.Score4Tail16", "Cvss.Proofs.Score4Tail17"], ties=[], streams=["score:F:40"]),
